@@ -37,6 +37,19 @@ class Driver:
                         uses = [x for x in ast.walk(fn) if isinstance(x, ast.Name) and x.id == nm_ and isinstance(x.ctx, ast.Load)]
                         if len(unp) == 1 and len(uses) == 1:
                             tg = norm(unp[0].targets[0])
+                        else:
+                            # the same pattern more than once (an inlined helper): the unpacking that follows in the same block, before the
+                            # name is bound again, with no other read of the name in between
+                            for blk in [getattr(x, f) for x in ast.walk(fn) for f in ('body', 'orelse', 'finalbody') if isinstance(getattr(x, f, None), list)]:
+                                if any(y is n for y in blk):
+                                    k0 = [j for j, y in enumerate(blk) if y is n][0]
+                                    for y in blk[k0 + 1:]:
+                                        reads_ = [z for z in ast.walk(y) if isinstance(z, ast.Name) and z.id == nm_]
+                                        if not reads_:
+                                            continue
+                                        if isinstance(y, ast.Assign) and isinstance(y.value, ast.Name) and y.value.id == nm_ and isinstance(y.targets[0], ast.Tuple) and len(reads_) == 1:
+                                            tg = norm(y.targets[0])
+                                        break
                     self.sites.append({'node': i, 'call': c, 'solver': nm, 'A': A, 'M': M, 'k': kw.get('k'), 'line': c.lineno, 'targets': tg})
 
     # reaching definition of a name at a CFG node: last assignment on the (straight-line) dominating path
